@@ -2,7 +2,9 @@ import FitProps.C05Lemmas
 import FitProps.BitsLemmas
 import FitProps.AccumLemmas
 import FitProps.ExpandLemmas
+import FitProps.ExpandSpecLemmas
 import FitModel.Generated.ProfileArith
+import FitModel.ExpandSpec
 /-!
 # C05 — Expanded component fields carry exactly the value of their source bits
 
@@ -11,15 +13,29 @@ The model: `FitModel/Bits.lean` (decoder/bits.go), `FitModel/Accum.lean` (decode
 the specification `FitModel/Physical.lean` (exact rational physical value, bit slices of the containing value as
 one natural number).
 
-After the repair of F07 (/repo 1e2d662) the value statements hold in full for every component row of the
-regenerated profile (`C05_value_exact`, `C05_value_within_one`).
+The SPECIFICATION of the expansion of whole messages and histories is `FitModel/ExpandSpec.lean` (`specSeq`: slices
+of the containing value as one natural number at the running bit offset, running totals per (message, destination)
+seeded by exactly converted wire values and advanced by the wrapping-counter delta, destination look-up in the
+regenerated profile, replace-or-append at the last field with the destination's number, depth-first recursion through
+the destinations' components and sub-fields) — written without the decoder's bit store, accumulator table and loops.
+`C05_expansion_fields_partial` proves that the model of `decodeFields`' tail computes exactly that function for every
+history of messages; `C05_expansion_values` that the arithmetic plugged into it yields the exact physical value
+wherever that is an integer in the uint32 range, and a value within one unit otherwise, for every slice or total below 2^32.
 
-PROPERTY THEOREMS (audited by ./check): C05_pull_refines, C05_pull_in_order, C05_store_of_value, C05_accumulate_total,
-C05_rows_in_range, C05_profile_depth, C05_value_exact, C05_value_within_one, C05_expansion_off, C05_untouched, C05_on_minus_expanded,
-C05_F07_witness_fixed
+After the repair of F07 (/repo 1e2d662) the value statements hold in full for every component row of the
+regenerated profile (`C05_value_exact`, `C05_value_within_one`). OPEN: KF-C05-2 (the decoder seeds its accumulator
+with the wire value of record.distance in 1/100 m and accumulates compressed_speed_distance samples counted in 1/16 m on
+top of it): `C05_expansion_fields_partial` excludes exactly those histories (`seedsOtherUnit`), `C05_KF2_witness`
+refutes the full statement.
+
+PROPERTY THEOREMS (audited by ./check): C05_pull_refines, C05_pull_in_order, C05_store_of_value, C05_running_total,
+C05_rows_in_range, C05_rows_cover, C05_profile_depth, C05_profile_table, C05_seed_exact, C05_value_exact, C05_value_within_one, C05_dest_representable, C05_dest_types,
+C05_expansion_values, C05_expansion_fields_partial, C05_expansion_property_partial, C05_KF2_witness, C05_expansion_off,
+C05_untouched, C05_on_minus_expanded, C05_F07_witness_fixed
 -/
 namespace Fit.C05
-open Fit.Expand Fit.Physical Fit.Msg Fit.C05L Fit.C12L Fit.F64
+open Fit.Expand Fit.Physical Fit.Msg Fit.C05L Fit.C12L Fit.F64 Fit.Gen
+open Fit.ExpandSpec (specSeq seedsOtherUnit advance runTotals)
 
 /-! ### bit slices -/
 
@@ -56,18 +72,19 @@ theorem C05_store_of_value (v : Value.Value) (ws : List Nat) (h : Fit.Bits.makeB
 
 /-! ### accumulation -/
 
-/-- **accumulate_total.** A counter of `w ≤ 32` bits with true totals `t₀ ≤ t₁ ≤ …` (each step shorter than its
-period 2^w) is observed modulo 2^w. Starting from a table that does not hold the key (a new sequence, or after
-`Reset`), the i-th `Accumulate` returns `(t₀ mod 2^w) + (tᵢ − t₀)` in uint32 arithmetic: the running total that
-the wrapping counter represents. -/
-theorem C05_accumulate_total (w : Nat) (hw : w ≤ 32) (a : Fit.Accum.Acc) (m f t0 : Nat) (ts : List Nat)
-    (habs : Fit.Accum.lookup a m f = none) (hsteps : Fit.Accum.Steps w t0 ts) :
-    (Fit.Accum.runAcc a m f w ((t0 :: ts).map (· % 2 ^ w))).1 =
-      (t0 :: ts).map fun t => (t0 % 2 ^ w + (t - t0)) % Fit.Accum.U32 :=
-  Fit.Accum.accumulate_total w hw a m f t0 ts habs hsteps
+/-- **running total of a wrapping counter** (what `ExpandSpec.advance` means). A counter of `w` bits whose true totals
+are `t ≤ t₁ ≤ t₂ ≤ …`, each step shorter than its period 2^w, is observed modulo 2^w only. Starting from the total
+`t` (a seed, or the first reading), the totals the specification keeps (`runTotals`: each sample advances the total to
+the least total not below it that a `w`-bit counter showing the sample can stand for) are exactly `t₁, t₂, …` — for any
+width and any number of samples. (How the decoder's accumulator follows these totals over whole histories of messages
+is `C05_expansion_fields_partial`.) -/
+theorem C05_running_total (w t : Nat) (ts : List Nat) (hsteps : Fit.Accum.Steps w t ts) :
+    runTotals t w (ts.map (· % 2 ^ w)) = ts :=
+  Fit.ExpandSpec.runTotals_true w ts t hsteps
 
-/-- non-vacuity: an 8-bit counter passing 250 → 260 → 300 (seen as 250, 4, 44) accumulates to 250, 260, 300 -/
-example : (Fit.Accum.runAcc [] 20 19 8 [250, 4, 44]).1 = [250, 260, 300] := by decide
+/-- non-vacuity: an 8-bit counter passing 250 → 260 → 300 → 700 (seen as 4, 44, 188) from the total 250 -/
+example : Fit.Accum.Steps 8 250 [260, 300, 500] ∧ runTotals 250 8 [4, 44, 244] = [260, 300, 500] :=
+  ⟨by simp [Fit.Accum.Steps], by decide⟩
 
 /-! ### values -/
 
@@ -81,17 +98,19 @@ theorem C05_rows_in_range :
     ∀ r ∈ rows, r.1 ≤ 16 ∧ rangeOK r.2.1 r.2.2.1 = true ∧ rangeOK r.2.2.2.1 r.2.2.2.2.1 = true ∧ r.2.2.2.2.2.2 = true := by
   decide +kernel
 
-/-- **C05_value_exact.** For every component row of the profile and every value of its bits: whenever the physical
+/-- **C05_value_exact.** For every component row of the profile and every value below 2^32 handed to the arithmetic
+(the bits of a slice — at most 16 in the profile — or the running total of an accumulating component, which the decoder
+keeps as a uint32; beyond 2^32 − 1 the accumulator wraps and the statement says nothing): whenever the physical
 value `((bits/cScale − cOffset) + dOffset) × dScale` is an integer that fits a uint32 (`exactValue` of the
 specification), the decoder's arithmetic yields exactly that integer — in particular whenever component and
 destination share scale and offset. -/
-theorem C05_value_exact (r) (hr : r ∈ rows) (bits e : Nat) (hb : bits < 2 ^ r.1)
+theorem C05_value_exact (r) (hr : r ∈ rows) (bits e : Nat) (hb : bits < 2 ^ 32)
     (hex : exactValue bits r.2.1 r.2.2.1 r.2.2.2.1 r.2.2.2.2.1 = some e) :
     componentValue bits r.2.1 r.2.2.1 r.2.2.2.1 r.2.2.2.2.1 = e := by
-  obtain ⟨h16, hc, hd, _⟩ := C05_rows_in_range r hr
-  have hbits : bits ≤ 2 ^ 16 := le_of_lt (lt_of_lt_of_le hb (Nat.pow_le_pow_right (by norm_num) h16))
+  obtain ⟨_, hc, hd, _⟩ := C05_rows_in_range r hr
+  have hbits : bits ≤ 2 ^ 32 := le_of_lt hb
   obtain ⟨he32, CS, CO, DS, DO, f1, f2, f3, f4, hphys⟩ := exactValue_spec _ _ _ _ _ _ hex
-  obtain ⟨CS', CO', DS', DO', g1, g2, g3, g4, hval⟩ := comp_value bits hbits _ _ _ _ hc hd
+  obtain ⟨CS', CO', DS', DO', g1, g2, g3, g4, hval⟩ := comp_value32 bits hbits _ _ _ _ hc hd
   have e1 := isFin_unique _ _ _ g1 f1
   have e2 := isFin_unique _ _ _ g2 f2
   have e3 := isFin_unique _ _ _ g3 f3
@@ -106,17 +125,18 @@ theorem C05_value_exact (r) (hr : r ∈ rows) (bits e : Nat) (hb : bits < 2 ^ r.
   have := (hval h0 h32).2 (e : Int) (by rw [hphys]; norm_cast)
   exact_mod_cast this
 
-/-- **C05_value_within_one.** For every component row and every value of its bits whose physical value lies in
+/-- **C05_value_within_one.** For every component row and every value below 2^32 (slice or running total) whose
+physical value lies in
 `[0, 2^32 − 1]`, the expanded value is within one unit of the destination's resolution of the physical value
 (`withinOne` of the specification) — whether or not that value is an integer. -/
-theorem C05_value_within_one (r) (hr : r ∈ rows) (bits : Nat) (hb : bits < 2 ^ r.1) (q : Q)
+theorem C05_value_within_one (r) (hr : r ∈ rows) (bits : Nat) (hb : bits < 2 ^ 32) (q : Q)
     (hq : phys bits r.2.1 r.2.2.1 r.2.2.2.1 r.2.2.2.2.1 = some q)
     (h0 : 0 ≤ q.num) (h32 : q.num ≤ (2 ^ 32 - 1) * (q.den : Int)) :
     withinOne (componentValue bits r.2.1 r.2.2.1 r.2.2.2.1 r.2.2.2.2.1) bits r.2.1 r.2.2.1 r.2.2.2.1 r.2.2.2.2.1 = true := by
-  obtain ⟨h16, hc, hd, _⟩ := C05_rows_in_range r hr
-  have hbits : bits ≤ 2 ^ 16 := le_of_lt (lt_of_lt_of_le hb (Nat.pow_le_pow_right (by norm_num) h16))
+  obtain ⟨_, hc, hd, _⟩ := C05_rows_in_range r hr
+  have hbits : bits ≤ 2 ^ 32 := le_of_lt hb
   obtain ⟨hden, CS, CO, DS, DO, f1, f2, f3, f4, hphys⟩ := phys_spec _ _ _ _ _ q hq
-  obtain ⟨CS', CO', DS', DO', g1, g2, g3, g4, hval⟩ := comp_value bits hbits _ _ _ _ hc hd
+  obtain ⟨CS', CO', DS', DO', g1, g2, g3, g4, hval⟩ := comp_value32 bits hbits _ _ _ _ hc hd
   have e1 := isFin_unique _ _ _ g1 f1
   have e2 := isFin_unique _ _ _ g2 f2
   have e3 := isFin_unique _ _ _ g3 f3
@@ -134,6 +154,33 @@ theorem C05_value_within_one (r) (hr : r ∈ rows) (bits : Nat) (hb : bits < 2 ^
   rw [← hphys] at this
   exact withinOne_of _ _ _ _ _ _ q hq hden this
 
+/-- bits a destination base type offers to a non-negative integer coming out of the decoder's uint32 intermediate
+(`convertUint32ToValue`): the width of the unsigned types, one less for the signed ones, never more than 32;
+`none` for float (and non-numeric) destinations -/
+def destBits (bt : Nat) : Option Nat :=
+  if bt = btSint8 then some 7
+  else if bt = btEnum ∨ bt = btByte ∨ bt = btUint8 ∨ bt = btUint8z then some 8
+  else if bt = btSint16 then some 15
+  else if bt = btUint16 ∨ bt = btUint16z then some 16
+  else if bt = btSint32 then some 31
+  else if bt = btUint32 ∨ bt = btUint32z then some 32
+  else if bt = btSint64 then some 32
+  else if bt = btUint64 ∨ bt = btUint64z then some 32
+  else none
+
+/-- **"representable in the destination field"**: an integer below 2^(bits the destination's base type offers) is
+carried by the written value unchanged (`convertU32` = `convertUint32ToValue`; the value's Go integer is `e`). -/
+theorem C05_dest_representable (e bt w : Nat) (hw : destBits bt = some w) (he : e < 2 ^ w) :
+    toInt64? (convertU32 e bt) = some (e : Int) := by
+  unfold destBits at hw
+  unfold convertU32
+  split_ifs at hw ⊢ <;> simp only [Option.some.injEq] at hw <;> subst hw <;>
+    simp only [toInt64?, IntTy.toInt, IntTy.bits, IntTy.signed, Option.some.injEq] <;>
+    norm_num at he ⊢ <;> (try split_ifs) <;> omega
+
+/-- every destination of a component of the profile has an integer base type (no float destination) -/
+theorem C05_dest_types : ∀ r ∈ rows, (destBits r.2.2.2.2.2.1).isSome = true := by decide +kernel
+
 /-- non-vacuity of the value theorems: the rows of the former F07 witnesses are rows of the profile; the physical value
 of speed 1001 (scale 1000 on both sides) is the integer 1001 and that of compressed distance 3 (scale 16 → 100) is
 18.75, which is not an integer -/
@@ -145,6 +192,135 @@ example : (16, 0x4014000000000000, 0x407f400000000000, 0x4014000000000000, 0x407
 /-- The witness of F07 after the repair: altitude 1 (scale 5, offset 500 on both sides) expands to 1. -/
 theorem C05_F07_witness_fixed :
     componentValue 1 0x4014000000000000 0x407f400000000000 0x4014000000000000 0x407f400000000000 = 1 := by
+  decide +kernel
+
+/-! ### the expansion of whole messages and histories -/
+
+/-- the regenerated profile: every message that owns components, with its fields, components, sub-fields -/
+def profile : Profile := Fit.Gen.PA.mesgs
+
+/-- **the value theorems speak about every component of the profile**: each component of each field and sub-field of
+the regenerated profile, paired with the scale, offset and base type of the destination the factory returns for it, is one
+of the `rows` (so `C05_value_exact` / `C05_value_within_one` apply to everything `specSeq` hands to the arithmetic). -/
+theorem C05_rows_cover :
+    ∀ e ∈ profile, ∀ f ∈ e.2, ∀ c ∈ Fit.ExpandSpec.allComps f,
+      (c.bits, c.scale, c.offset, (createField profile e.1 c.fieldNum).1.scale, (createField profile e.1 c.fieldNum).1.offset,
+        (createField profile e.1 c.fieldNum).1.baseType, (lookup profile e.1 c.fieldNum).isSome) ∈ rows := by
+  decide +kernel
+
+/-- **side conditions of the refinement, checked against the regenerated profile**: every component is at most 32 bits
+wide (`Pull` returns a uint32), and the accumulating components that feed one destination all have the same width. -/
+theorem C05_profile_table : Fit.ExpandSpec.tableOK profile = true := by decide +kernel
+
+/-- **a wire value seeds the running total "converted exactly"**: for every component row of the profile, when the
+specification takes `T` as the total that a wire value `v` of the destination seeds (`ExpandSpec.seed`, i.e.
+`((v / dScale − dOffset) + cOffset) × cScale` is the whole number `T`), the physical value of `T` is exactly `v`:
+`((T / cScale − cOffset) + dOffset) × dScale = v`. (Where that product is not a whole number the specification is
+undetermined: the property does not say which reading the counter had.) -/
+theorem C05_seed_exact (r) (hr : r ∈ rows) (v T : Nat) (hv : v < 2 ^ 32)
+    (hseed : Fit.ExpandSpec.seed v r.2.1 r.2.2.1 r.2.2.2.1 r.2.2.2.2.1 = some T) :
+    exactValue T r.2.1 r.2.2.1 r.2.2.2.1 r.2.2.2.2.1 = some v := by
+  have hne : ∀ r ∈ rows, (Q.ofF64 r.2.1).any (fun q => q.num != 0) = true := by decide +kernel
+  have h := hne r hr
+  cases hq : Q.ofF64 r.2.1 with
+  | none => rw [hq] at h; cases h
+  | some q =>
+    rw [hq] at h
+    exact seed_inverse v _ _ _ _ T hv hseed ⟨q, hq, by simpa using h⟩
+
+/-- non-vacuity: record.distance 100000 (1/100 m) seeds the compressed distance counter (1/16 m) with 16000; 100001 does
+not convert to a whole number of 1/16 m -/
+example : Fit.ExpandSpec.seed 100000 0x4030000000000000 0 0x4059000000000000 0 = some 16000 ∧
+    Fit.ExpandSpec.seed 100001 0x4030000000000000 0 0x4059000000000000 0 = none := by decide +kernel
+
+/-- what C05 asks of the arithmetic `cv` of one component: for every component row of the profile and every slice or
+running total `T < 2^32`, the exact physical value whenever that is an integer that fits a uint32, and a value within one
+unit of the physical value whenever that lies in `[0, 2^32 − 1]` -/
+def Admissible (cv : CV) : Prop :=
+  ∀ r ∈ rows, ∀ T, T < 2 ^ 32 →
+    (∀ e, exactValue T r.2.1 r.2.2.1 r.2.2.2.1 r.2.2.2.2.1 = some e → cv T r.2.1 r.2.2.1 r.2.2.2.1 r.2.2.2.2.1 = e) ∧
+    (∀ q : Q, phys T r.2.1 r.2.2.1 r.2.2.2.1 r.2.2.2.2.1 = some q → 0 ≤ q.num → q.num ≤ (2 ^ 32 - 1) * (q.den : Int) →
+      withinOne (cv T r.2.1 r.2.2.1 r.2.2.2.1 r.2.2.2.2.1) T r.2.1 r.2.2.1 r.2.2.2.1 r.2.2.2.2.1 = true)
+
+/-- **C05_expansion_values.** The decoder's arithmetic (`uint32(math.Round(Discard(Apply(·))))`, decoder.go:881-883)
+is admissible: exact wherever the physical value is an integer in the uint32 range, within one unit otherwise — for every
+component of the profile and every slice or accumulated total below 2^32. -/
+theorem C05_expansion_values : Admissible componentValue :=
+  fun r hr T hT => ⟨fun e he => C05_value_exact r hr T e hT he, fun q hq h0 h32 => C05_value_within_one r hr T hT q hq h0 h32⟩
+
+/-- the full statement (OPEN: KF-C05-2): for every history of messages of one sequence, wherever the specification
+determines the expansion, the decoder's tail yields exactly it -/
+def C05_expansion_fields_full : Prop :=
+  ∀ ms out, specSeq componentValue profile ms = some out → decodeSeq componentValue profile true ms = out
+
+/-- **C05_expansion_fields (partial: outside the class of KF-C05-2).** For EVERY sequence of messages `ms` (any
+length, any message numbers, any fields and values) in which no wire field is the destination of an accumulating
+component that counts in another unit than the field (`seedsOtherUnit`: on the regenerated profile only record.distance
+next to compressed_speed_distance's 1/16 m component), whenever the specification `ExpandSpec.specSeq` determines the
+expanded messages, the model of `decodeFields`' tail (`decodeSeq`: collection of accumulable wire values, `makeBits`,
+`Pull` on the 32-word store, `Accumulate`, destination look-up from the end, replace/append, sub-field substitution,
+recursion) returns exactly them: component k of a container is the slice `sliceAt (containerNat value) (Σ earlier widths)
+bits_k`; with several components the first zero slice stops the container; an accumulating component's value is the
+running total of the sequence for (message, destination) — seeded by a wire value of the destination, advanced by the
+wrapping-counter delta of each sample (`C05_running_total`); the written value is
+`convertU32 (componentValue T cScale cOffset dScale dOffset) dBaseType` (see `C05_expansion_values`); it replaces the
+value of the last field with the destination's number (appended when that field is an array) or a new field flagged
+expanded is appended; the destination's own components, or those of its selected sub-field, expand the value just written
+before the next component. The specification is undetermined (`none`) only for: signed or float containers (none in the
+profile), wire seeds that are not a whole number of the component's units, totals beyond 2^32 − 1, fields of an
+accumulated destination not carrying the profile's accumulate flag. -/
+theorem C05_expansion_fields_partial (ms out : List Message) (hk : seedsOtherUnit profile ms = false)
+    (hs : specSeq componentValue profile ms = some out) :
+    decodeSeq componentValue profile true ms = out :=
+  Fit.ExpandSpec.decodeSeq_refines componentValue profile (Fit.ExpandSpec.tableOK_spec profile C05_profile_table) ms out hk hs
+
+/-- **the PROPERTY sentence about the decoder's output** (partial: outside KF-C05-2): the expanded messages of every
+history are the specification's expansion under an arithmetic that gives every slice and every running total its exact
+physical value where that is a representable integer and a value within one unit otherwise. -/
+theorem C05_expansion_property_partial (ms : List Message) (hk : seedsOtherUnit profile ms = false) :
+    ∃ cv : CV, Admissible cv ∧ ∀ out, specSeq cv profile ms = some out → decodeSeq componentValue profile true ms = out :=
+  ⟨componentValue, C05_expansion_values, fun out hs => C05_expansion_fields_partial ms out hk hs⟩
+
+/-- the witness history of KF-C05-2: record{distance = 100000}; record{compressed_speed_distance = [1, 0, 0x0A]} -/
+def kf2Witness : List Message :=
+  [{ num := 20, fields := [{ base := some { num := 5, baseType := 0x86, accumulate := true, scale := 0x4059000000000000, nameKnown := true }, value := .uint32 100000 }], devFields := [] },
+   { num := 20, fields := [{ base := some { num := 8, baseType := 0x0d, array := true, nameKnown := true }, value := .sliceUint8 [1, 0, 0x0A] }], devFields := [] }]
+
+/-- **KF-C05-2 refutes the full statement**: on the witness history the specification demands distance 103400
+(1000 m + the 34 m a 12-bit counter of 1/16 m travelled from 16000 to a reading of 160) and the model of the decoder — like
+the decoder — yields 641000; the history is in the excluded class. -/
+theorem C05_KF2_witness :
+    ¬ C05_expansion_fields_full ∧ seedsOtherUnit profile kf2Witness = true ∧
+      (specSeq componentValue profile kf2Witness).map (fun out => out.map fun m => Fit.Msg.fieldValueByNum m.fields.reverse 5) =
+        some [.uint32 100000, .uint32 103400] ∧
+      (decodeSeq componentValue profile true kf2Witness).map (fun m => Fit.Msg.fieldValueByNum m.fields.reverse 5) =
+        [.uint32 100000, .uint32 641000] := by
+  have h1 : seedsOtherUnit profile kf2Witness = true := by decide +kernel
+  have h2 : (specSeq componentValue profile kf2Witness).map (fun out => out.map fun m => Fit.Msg.fieldValueByNum m.fields.reverse 5) =
+      some [.uint32 100000, .uint32 103400] := by decide +kernel
+  have h3 : (decodeSeq componentValue profile true kf2Witness).map (fun m => Fit.Msg.fieldValueByNum m.fields.reverse 5) =
+      [.uint32 100000, .uint32 641000] := by decide +kernel
+  refine ⟨?_, h1, h2, h3⟩
+  intro hfull
+  cases hsp : specSeq componentValue profile kf2Witness with
+  | none => rw [hsp] at h2; cases h2
+  | some out =>
+    have := hfull kf2Witness out hsp
+    rw [hsp] at h2
+    simp only [Option.map_some, Option.some.injEq] at h2
+    rw [this, h2] at h3
+    exact absurd h3 (by decide)
+
+/-- non-vacuity of `C05_expansion_fields_partial`: an Hr history in its class that the specification determines — wire
+event_timestamp [10000] (1/1024 s, the component's own unit), then event_timestamp_12 with the 12-bit samples of 10300
+and 10800: the expanded event_timestamp is [10300, 10800] -/
+example :
+    let ms : List Message :=
+      [{ num := 132, fields := [{ base := some { num := 9, baseType := 0x86, array := true, accumulate := true, scale := 0x4090000000000000, nameKnown := true }, value := .sliceUint32 [10000] }], devFields := [] },
+       { num := 132, fields := [{ base := some { num := 10, baseType := 0x0d, array := true, accumulate := true, nameKnown := true }, value := .sliceUint8 [0x3c, 0x08, 0xa3] }], devFields := [] }]
+    seedsOtherUnit profile ms = false ∧
+      (specSeq componentValue profile ms).map (fun out => out.map fun m => Fit.Msg.fieldValueByNum m.fields.reverse 9) =
+        some [.sliceUint32 [10000], .sliceUint32 [10300, 10800]] := by
   decide +kernel
 
 /-! ### expansion off -/
@@ -187,13 +363,22 @@ theorem C05_profile_depth :
 
 /-- **C05_untouched.** Whatever the arithmetic of a component (`cv`), the factory (`p`), the state of the accumulator
 and the message: after expansion every wire field is still at its position with the same `FieldBase` and the same
-`IsExpandedField` flag; its value is unchanged unless its number is the destination of a component this message can expand
-(field- or sub-field-level, transitively: `destsOf`); and every field beyond the wire fields is flagged expanded.
+`IsExpandedField` flag; its value is unchanged unless its number is the destination of a component PRESENT in this
+message — a component (field- or sub-field-level) of one of the message's own wire fields, or, transitively, of such a
+destination (`destsPresent`: e.g. a record without compressed_speed_distance cannot have its speed or distance changed,
+whatever other components the record message type owns); and every field beyond the wire fields is flagged expanded.
 The message number and the developer fields are untouched. -/
 theorem C05_untouched (cv : CV) (p : Profile) (acc : Fit.Accum.Acc) (m : Message) :
-    Inv (destsOf p m.num) m.fields (decodeTail cv p true acc m).2.fields ∧
+    Inv (destsPresent p m.num m.fields) m.fields (decodeTail cv p true acc m).2.fields ∧
       (decodeTail cv p true acc m).2.num = m.num ∧ (decodeTail cv p true acc m).2.devFields = m.devFields :=
-  decodeTail_inv cv p true acc m
+  decodeTail_present cv p true acc m
+
+/-- non-vacuity / tightness: for a record carrying only `speed`, the only numbers that may change are speed's destination
+enhanced_speed (73); with compressed_speed_distance present: speed (6), enhanced_speed (73) and distance (5) -/
+example :
+    destsPresent profile 20 [{ base := some { num := 6, baseType := 0x84 }, value := .uint16 1 }] = [73] ∧
+      destsPresent profile 20 [{ base := some { num := 8, baseType := 0x0d }, value := .sliceUint8 [1, 0, 10] }] = [6, 73, 5] := by
+  decide +kernel
 
 /-- **Expansion off = on minus the expanded fields** (with the carve-out of the property for destinations present on the
 wire): if no wire field is flagged expanded, then dropping the flagged fields from the expanded message leaves exactly
@@ -205,7 +390,7 @@ theorem C05_on_minus_expanded (cv : CV) (p : Profile) (acc : Fit.Accum.Acc) (m :
     on.take m.fields.length = on.filter (!·.isExpanded) ∧
       (on.filter (!·.isExpanded)).length = m.fields.length := by
   intro on
-  have hinv : Inv (destsOf p m.num) m.fields on := (decodeTail_inv cv p true acc m).1
+  have hinv : Inv (destsPresent p m.num m.fields) m.fields on := (decodeTail_present cv p true acc m).1
   clear_value on
   obtain ⟨hlen, hkeep, hext⟩ := hinv
   have hsplit : on = on.take m.fields.length ++ on.drop m.fields.length := (List.take_append_drop _ _).symm
